@@ -726,7 +726,7 @@ def normalize(tree, modname, reference):
 # ---------------------------------------------------------------- new explaining locals
 
 _PURE_CALLS = {"len", "min", "max", "int", "abs", "isinstance", "issubclass", "bool", "tuple", "divmod", "float", "str", "bytes", "range"}
-_PURE_DOTTED = {"struct.unpack", "struct.pack", "struct.calcsize", "struct.unpack_from", "socket.inet_aton", "socket.inet_ntoa"}
+_PURE_DOTTED = {"struct.unpack", "struct.pack", "struct.calcsize", "struct.unpack_from", "socket.inet_aton", "socket.inet_ntoa", "calendar.monthrange", "calendar.isleap", "calendar.weekday"}
 
 
 def _is_pure(e):
@@ -851,6 +851,94 @@ def inline_new_locals(tree, modname, reference, qualnames_fn):
                 del stores[v]
                 count += 1
                 changed = True
+    return count
+
+
+def ifexp_signatures(fn):
+    """signatures of the simple statements that contain a conditional expression"""
+    names = {n.id for n in ast.walk(fn) if isinstance(n, ast.Name) and isinstance(n.ctx, ast.Store)}
+    out = []
+    for n in _own_nodes(fn):
+        if isinstance(n, (ast.Assign, ast.Expr, ast.Return, ast.AugAssign)) and any(isinstance(x, ast.IfExp) for x in ast.walk(n)):
+            out.append(_comp_signature(n, names))
+    return sorted(out)
+
+
+def hoist_new_ifexps(tree, modname, reference, qualnames_fn):
+    """a simple statement with one conditional expression the reference does not have,  s(.. a if c else b ..),  is the
+    statement  if c: s(.. a ..) else: s(.. b ..)  when nothing of s is evaluated before c that could matter: every call
+    of s outside the conditional expression is applied to (a value computed from) it"""
+    ref = (reference or {}).get(modname) or {}
+    known_fns = set(ref.get("__functions__", []))
+    sigs = ref.get("__ifexps__")
+    if not known_fns or sigs is None:
+        return 0
+    count = 0
+    for q, fn in qualnames_fn(tree):
+        if q not in known_fns:
+            continue
+        cur = ifexp_signatures(fn)
+        if not cur:
+            continue
+        have = list(sigs.get(q, []))
+        names = {n.id for n in ast.walk(fn) if isinstance(n, ast.Name) and isinstance(n.ctx, ast.Store)}
+
+        def block(stmts):
+            nonlocal count
+            out = []
+            for st in stmts:
+                if isinstance(st, _SCOPES):
+                    out.append(st)
+                    continue
+                for fld in ("body", "orelse", "finalbody"):
+                    blk = getattr(st, fld, None)
+                    if isinstance(blk, list) and blk and isinstance(blk[0], ast.stmt):
+                        setattr(st, fld, block(blk))
+                for h_ in getattr(st, "handlers", []) or []:
+                    h_.body = block(h_.body)
+                new = None
+                if isinstance(st, (ast.Assign, ast.Expr, ast.Return, ast.AugAssign)):
+                    ies = [x for x in ast.walk(st) if isinstance(x, ast.IfExp)]
+                    if ies:
+                        sg = _comp_signature(st, names)
+                        if sg in have:
+                            have.remove(sg)
+                        elif len(ies) == 1 and _is_pure(ies[0].test) and not any(isinstance(x, (ast.Lambda, ast.ListComp, ast.SetComp, ast.DictComp, ast.GeneratorExp)) for x in ast.walk(st)):
+                            ie = ies[0]
+                            inside = {id(x) for x in ast.walk(ie)}
+                            # ancestors of the conditional expression
+                            anc = set()
+
+                            def mark(n):
+                                if n is ie:
+                                    return True
+                                hit = False
+                                for ch in ast.iter_child_nodes(n):
+                                    if mark(ch):
+                                        hit = True
+                                if hit:
+                                    anc.add(id(n))
+                                return hit
+                            mark(st)
+                            others = [x for x in ast.walk(st) if isinstance(x, ast.Call) and id(x) not in inside and id(x) not in anc]
+                            if not others:
+                                a_st, b_st = copy.deepcopy(st), copy.deepcopy(st)
+                                ia = [x for x in ast.walk(a_st) if isinstance(x, ast.IfExp)][0]
+                                ib = [x for x in ast.walk(b_st) if isinstance(x, ast.IfExp)][0]
+                                _replace_node(a_st, ia, ia.body)
+                                _replace_node(b_st, ib, ib.orelse)
+                                new = [ast.If(test=ie.test, body=[a_st], orelse=[b_st])]
+                if new is not None:
+                    for x in new:
+                        ast.copy_location(x, st)
+                        ast.fix_missing_locations(x)
+                    _relocate(new, getattr(st, "lineno", 0), 0)
+                    out.extend(new)
+                    count += 1
+                else:
+                    out.append(st)
+            return out
+        fn.body = block(fn.body)
     return count
 
 
@@ -1064,10 +1152,202 @@ def _sig(node, names):
     return _comp_signature(node, names)
 
 
+def _setdefault_call(st):
+    """the single d.setdefault(k, <empty container or constant>) call of a simple statement whose other parts have no effects"""
+    calls = [n for n in ast.walk(st) if isinstance(n, ast.Call)]
+    sd = [c for c in calls if isinstance(c.func, ast.Attribute) and c.func.attr == "setdefault" and len(c.args) == 2 and not c.keywords]
+    if len(sd) != 1:
+        return None
+    c = sd[0]
+    d = c.args[1]
+    empty = (isinstance(d, (ast.Dict, ast.List, ast.Set, ast.Tuple)) and not (getattr(d, "keys", None) or getattr(d, "elts", None))) or isinstance(d, ast.Constant) \
+        or (isinstance(d, ast.Call) and isinstance(d.func, ast.Name) and d.func.id in ("dict", "list", "set") and not d.args and not d.keywords)
+    if not (empty and _is_simple_arg(c.func.value) and (_is_simple_arg(c.args[0]) or (isinstance(c.args[0], ast.Tuple) and all(_is_simple_arg(e) for e in c.args[0].elts)))):
+        return None
+    # every other call of the statement is a method of the looked-up container (d.setdefault(k, []).append(v)) with simple arguments
+    for x in calls:
+        if x is c or x is d:
+            continue
+        if not (isinstance(x.func, ast.Attribute) and x.func.value is c and all(_is_simple_arg(a) for a in x.args) and not x.keywords):
+            return None
+    return c
+
+
+def _search_return_shape(lp):
+    """for ..: [pre]; if c: S..; return [v]      (no else on the loop or the if, no other way out of the loop)"""
+    if lp.orelse or not lp.body:
+        return False
+    last = lp.body[-1]
+    if not (isinstance(last, ast.If) and not last.orelse and last.body and isinstance(last.body[-1], ast.Return)):
+        return False
+    ret = last.body[-1]
+    for st in lp.body:
+        for n in ast.walk(st):
+            if isinstance(n, (ast.Return, ast.Break)) and n is not ret:
+                return False
+            if isinstance(n, (ast.For, ast.While, ast.Try, ast.With)) and any(isinstance(x, (ast.Return, ast.Break, ast.Continue)) for x in ast.walk(n)):
+                return False
+    if any(isinstance(n, ast.Continue) for x in last.body for n in ast.walk(x)):
+        return False
+    return True
+
+
+def _flag_test(t, flag):
+    """-> True if the test holds when the flag was set (found), False if it holds when it was not, else None; and the kind of test"""
+    if isinstance(t, ast.Name) and t.id == flag:
+        return True, "truth"
+    if isinstance(t, ast.UnaryOp) and isinstance(t.op, ast.Not) and isinstance(t.operand, ast.Name) and t.operand.id == flag:
+        return False, "truth"
+    if isinstance(t, ast.Compare) and len(t.ops) == 1 and isinstance(t.left, ast.Name) and t.left.id == flag and isinstance(t.comparators[0], ast.Constant) \
+            and t.comparators[0].value is None and isinstance(t.ops[0], (ast.Is, ast.IsNot)):
+        return isinstance(t.ops[0], ast.IsNot), "none"
+    return None, None
+
+
+def _user_flag_loops(stmts, fn, new_local):
+    """F = False|None            (F a local the reference does not know)
+       for ..: .. if c: F = v; break        (the only stores of F; v is known to be true / not None)
+       if F: A else: B           (or: if not F / F is None / F is not None)
+    ->  for ..: .. if c: A[F:=v]; break      else: B
+    The found arm runs where the flag was set, the other arm where the loop ran out: the for/else the flag spells out."""
+    out = []
+    i = 0
+    done = 0
+    while i < len(stmts):
+        st = stmts[i]
+        for fld in ("body", "orelse", "finalbody"):
+            blk = getattr(st, fld, None)
+            if isinstance(blk, list) and blk and isinstance(blk[0], ast.stmt) and not isinstance(st, _SCOPES):
+                nb, k = _user_flag_loops(blk, fn, new_local)
+                setattr(st, fld, nb)
+                done += k
+        for h in getattr(st, "handlers", []) or []:
+            h.body, k = _user_flag_loops(h.body, fn, new_local)
+            done += k
+        ok = False
+        if isinstance(st, ast.Assign) and len(st.targets) == 1 and isinstance(st.targets[0], ast.Name) and new_local(st.targets[0].id) \
+                and isinstance(st.value, ast.Constant) and (st.value.value is None or st.value.value is False) \
+                and i + 2 < len(stmts) + 0 and isinstance(stmts[i + 1], ast.For) and not stmts[i + 1].orelse and isinstance(stmts[i + 2], ast.If):
+            flag = st.targets[0].id
+            lp, nxt = stmts[i + 1], stmts[i + 2]
+            found_when, kind = _flag_test(nxt.test, flag)
+            all_stores = [n for n in ast.walk(fn) if isinstance(n, ast.Name) and n.id == flag and isinstance(n.ctx, (ast.Store, ast.Del))]
+            # the stores inside the loop: each `F = v` directly followed by the loop's break, at the end of an if arm
+            sets = []
+
+            def find(sts, depth_ok):
+                for k, x in enumerate(sts):
+                    if isinstance(x, ast.Assign) and len(x.targets) == 1 and isinstance(x.targets[0], ast.Name) and x.targets[0].id == flag:
+                        sets.append((sts, k, depth_ok and k + 1 < len(sts) and isinstance(sts[k + 1], ast.Break) and k + 2 == len(sts)))
+                    elif isinstance(x, ast.If):
+                        find(x.body, depth_ok)
+                        find(x.orelse, depth_ok)
+                    elif isinstance(x, (ast.For, ast.While, ast.Try, ast.With)):
+                        find(getattr(x, "body", []), False)
+                        find(getattr(x, "orelse", []), False)
+            find(lp.body, True)
+            breaks = [n for n in _loop_level(lp.body) if isinstance(n, ast.Break)]
+            loop_targets = {n.id for n in ast.walk(lp.target) if isinstance(n, ast.Name)}
+            index_targets = set()
+            it = lp.iter
+            if isinstance(it, ast.Call) and isinstance(it.func, ast.Name) and it.func.id == "range" and isinstance(lp.target, ast.Name):
+                index_targets.add(lp.target.id)
+            if isinstance(it, ast.Call) and isinstance(it.func, ast.Name) and it.func.id == "enumerate" and isinstance(lp.target, ast.Tuple) and isinstance(lp.target.elts[0], ast.Name):
+                index_targets.add(lp.target.elts[0].id)
+
+            def value_ok(v):
+                if isinstance(v, ast.Constant):
+                    return bool(v.value) if kind == "truth" else v.value is not None
+                if isinstance(v, ast.Name) and kind == "none":
+                    return v.id in index_targets
+                return False
+            if found_when is not None and len(sets) == 1 and sets[0][2] and len(all_stores) == 2 and len(breaks) == 1 and value_ok(sets[0][0][sets[0][1]].value):
+                blk, k, _ = sets[0]
+                val = blk[k].value
+                found_arm, miss_arm = (nxt.body, nxt.orelse) if found_when else (nxt.orelse, nxt.body)
+                loads = [n for n in ast.walk(fn) if isinstance(n, ast.Name) and n.id == flag and isinstance(n.ctx, ast.Load)]
+                in_test = [n for n in loads if any(n is y for y in ast.walk(nxt.test))]
+                in_found = [n for n in loads if any(n is y for a_ in found_arm for y in ast.walk(a_))]
+                arm_nodes = [n for a_ in found_arm for n in ast.walk(a_)]
+                val_names = {n.id for n in ast.walk(val) if isinstance(n, ast.Name)}
+                arm_leaves_loop = any(isinstance(n, (ast.Break, ast.Continue)) for n in arm_nodes)      # would bind to the wrong loop once moved
+                arm_stores_val = any(isinstance(n, ast.Name) and n.id in val_names and isinstance(n.ctx, (ast.Store, ast.Del)) for n in arm_nodes)
+                if len(loads) == len(in_test) + len(in_found) and not arm_leaves_loop and not arm_stores_val:
+                    class S_(ast.NodeTransformer):
+                        def visit_Name(self, node):
+                            if node.id == flag and isinstance(node.ctx, ast.Load):
+                                return ast.copy_location(copy.deepcopy(val), node)
+                            return node
+                    moved = [S_().visit(a_) for a_ in found_arm]
+                    moved = [a_ for a_ in moved if not isinstance(a_, ast.Pass)]
+                    blk[k:k + 1] = moved                      # F = v replaced by the found arm, the break stays behind it
+                    lp.orelse = [a_ for a_ in miss_arm if not isinstance(a_, ast.Pass)]
+                    out.append(lp)
+                    i += 3
+                    done += 1
+                    ok = True
+        if not ok:
+            out.append(st)
+            i += 1
+    return out, done
+
+
+def _loop_level(body):
+    """statements (any depth) that belong to this loop, not to a loop nested in it"""
+    res = []
+
+    def rec(sts):
+        for x in sts:
+            res.append(x)
+            if isinstance(x, (ast.For, ast.While)):
+                rec(x.orelse)
+            elif not isinstance(x, _SCOPES):
+                for fld in ("body", "orelse", "finalbody"):
+                    rec([y for y in getattr(x, fld, None) or [] if isinstance(y, ast.stmt)])
+                for h in getattr(x, "handlers", None) or []:
+                    rec(h.body)
+    rec(body)
+    return res
+
+
+def _search_returns_to_for_else(stmts, tail, is_new):
+    """for ..: if c: S; return v      REST        ->   for ..: if c: break / else: REST [; return]      S; return v
+    when REST cannot run into the code that now follows the loop: it always leaves, or it runs off the end of the function"""
+    out = list(stmts)
+    n_done = 0
+    for i, st in enumerate(out):
+        last_here = i == len(out) - 1
+        if isinstance(st, ast.If):
+            st.body, k1 = _search_returns_to_for_else(st.body, tail and last_here, is_new)
+            st.orelse, k2 = _search_returns_to_for_else(st.orelse, tail and last_here, is_new)
+            n_done += k1 + k2
+        elif isinstance(st, (ast.For, ast.While)) and not (isinstance(st, ast.For) and _search_return_shape(st)):
+            st.body, k1 = _search_returns_to_for_else(st.body, False, is_new)
+            n_done += k1
+        elif isinstance(st, (ast.Try, ast.With)):
+            st.body, k1 = _search_returns_to_for_else(st.body, False, is_new)
+            n_done += k1
+    for i, st in enumerate(out):
+        if isinstance(st, ast.For) and _search_return_shape(st) and is_new("searchreturn", st):
+            rest = out[i + 1:]
+            if not (_always_returns(rest) or tail):
+                continue
+            if any(isinstance(n, (ast.Break, ast.Continue)) for x in rest for n in ast.walk(x)) and not _always_returns(rest):
+                continue
+            found = st.body[-1]
+            action = found.body
+            found.body = [ast.copy_location(ast.Break(), action[-1])]
+            st.orelse = list(rest) + ([] if _always_returns(rest) else [ast.copy_location(ast.Return(value=None), st)])
+            out[i + 1:] = action
+            n_done += 1
+            break
+    return out, n_done
+
+
 def construct_signatures(fn):
     """kind -> sorted signatures of the statement-level constructs the respelling pass knows, for the reference"""
     names = {n.id for n in ast.walk(fn) if isinstance(n, ast.Name) and isinstance(n.ctx, ast.Store)}
-    out = {"ifexp": [], "tupleassign": [], "unpack1": [], "chained": [], "nameloop": [], "while": [], "storealias": [], "rowloop": []}
+    out = {"ifexp": [], "tupleassign": [], "unpack1": [], "chained": [], "nameloop": [], "while": [], "storealias": [], "rowloop": [], "searchreturn": [], "setdefault": [], "unpackcall": [], "guardcontinue": []}
     for n in _own_nodes(fn):
         if isinstance(n, ast.Assign):
             if isinstance(n.value, ast.IfExp):
@@ -1079,12 +1359,20 @@ def construct_signatures(fn):
                     out["tupleassign"].append(_sig(n, names))
             if len(n.targets) > 1:
                 out["chained"].append(_sig(n, names))
+            if len(n.targets) == 1 and isinstance(n.targets[0], (ast.Tuple, ast.List)) and len(n.targets[0].elts) > 1 and isinstance(n.value, ast.Call):
+                out["unpackcall"].append(_sig(n, names))
             if len(n.targets) == 1 and isinstance(n.targets[0], ast.Attribute) and isinstance(n.value, ast.Name) and n.value.id in names:
                 out["storealias"].append(_sig(n, names))
         elif isinstance(n, ast.For) and isinstance(n.iter, (ast.Tuple, ast.List)) and n.iter.elts and all(isinstance(e, ast.Constant) and isinstance(e.value, str) for e in n.iter.elts):
             out["nameloop"].append(_sig(n, names))
         elif isinstance(n, ast.For) and isinstance(n.iter, (ast.Tuple, ast.List)):
             out["rowloop"].append(_sig(n, names))
+        if isinstance(n, ast.If) and not n.orelse and n.body and isinstance(n.body[-1], ast.Continue):
+            out["guardcontinue"].append(_sig(n.test, names))
+        if isinstance(n, ast.For) and _search_return_shape(n):
+            out["searchreturn"].append(_sig(n, names))
+        if isinstance(n, (ast.Assign, ast.Expr, ast.AugAssign)) and _setdefault_call(n) is not None:
+            out["setdefault"].append(_sig(n, names))
         elif isinstance(n, ast.While):
             out["while"].append(_sig(n.test, names))
     return {k: sorted(v) for k, v in out.items() if v}
@@ -1112,7 +1400,7 @@ def respell_new_constructs(tree, modname, reference, qualnames_fn):
         cur = construct_signatures(fn)
         names = {n.id for n in ast.walk(fn) if isinstance(n, ast.Name) and isinstance(n.ctx, ast.Store)}
         known_locals = {b[0] for b in ref.get(q, [])}
-        if all(len(cur.get(k, [])) <= len(have.get(k, [])) for k in cur):
+        if all(len(cur.get(k, [])) <= len(have.get(k, [])) for k in cur) and not (names - known_locals):
             continue
 
         def is_new(kind, node):
@@ -1123,17 +1411,32 @@ def respell_new_constructs(tree, modname, reference, qualnames_fn):
                 return False
             return True
         aliases = {}
+        if names - known_locals:
+            fn.body, k_ = _user_flag_loops(fn.body, fn, lambda nm: nm not in known_locals)
+            count += k_
+        if len(cur.get("searchreturn", [])) > len(have.get("searchreturn", [])):
+            fn.body, k_ = _search_returns_to_for_else(fn.body, True, is_new)
+            count += k_
 
-        def block(stmts):
+        def block(stmts, loop_body=False):
             nonlocal count
             out = []
             i = 0
+            stmts = list(stmts)
             while i < len(stmts):
                 st = stmts[i]
+                # if c: S; continue   REST      (directly in a loop body, new)   ->   if c: S  else: REST
+                if loop_body and isinstance(st, ast.If) and not st.orelse and st.body and isinstance(st.body[-1], ast.Continue) and i + 1 < len(stmts) \
+                        and is_new("guardcontinue", st.test):
+                    st.body = st.body[:-1] or [ast.copy_location(ast.Pass(), st)]
+                    st.orelse = stmts[i + 1:]
+                    del stmts[i + 1:]
+                    count += 1
                 for fld in ("body", "orelse", "finalbody"):
                     blk = getattr(st, fld, None)
                     if isinstance(blk, list) and blk and isinstance(blk[0], ast.stmt) and not isinstance(st, _SCOPES):
-                        setattr(st, fld, block(blk))
+                        setattr(st, fld, block(blk, loop_body=(fld == "body" and isinstance(st, (ast.For, ast.While)))
+                                                    or (loop_body and isinstance(st, ast.If) and i == len(stmts) - 1)))
                 for h_ in getattr(st, "handlers", []) or []:
                     h_.body = block(h_.body)
                 new = None
@@ -1148,11 +1451,36 @@ def respell_new_constructs(tree, modname, reference, qualnames_fn):
                     a_ = stmts[i + 1].targets[0]
                     after = [n for s_ in stmts[i + 2:] for n in ast.walk(s_)]
                     base_ = _text(a_.value)
+                    # code called with the object can store the attribute only if some other function of the module does
+                    # (stores from other modules and through setattr are not seen: stated in DESIGN.md)
+                    storing = [f2 for q2, f2 in qualnames_fn(tree) if f2 is not fn and any(
+                        isinstance(n, ast.Attribute) and n.attr == a_.attr and isinstance(n.ctx, (ast.Store, ast.Del)) for n in ast.walk(f2))]
+                    stored_elsewhere = any(isinstance(n, ast.Constant) and n.value == a_.attr for n in ast.walk(tree))
+                    if storing and not stored_elsewhere:
+                        # ... and only if that function can be reached (by name, transitively) from a call made here
+                        called = {n.func.attr if isinstance(n.func, ast.Attribute) else getattr(n.func, "id", None) for n in after if isinstance(n, ast.Call)}
+                        byname = {}
+                        reach = set()
+                        for q2, f2 in qualnames_fn(tree):
+                            # a constructor is called by the name of its class
+                            byname.setdefault(q2.split(".")[-2] if f2.name == "__init__" and "." in q2 else f2.name, []).append(f2)
+                        todo = list(called)
+                        while todo:
+                            nm = todo.pop()
+                            for f2 in byname.get(nm, []):
+                                reach.add(id(f2))
+                                for n in ast.walk(f2):
+                                    if isinstance(n, ast.Call):
+                                        c2 = n.func.attr if isinstance(n.func, ast.Attribute) else getattr(n.func, "id", None)
+                                        if c2 not in called:
+                                            called.add(c2)
+                                            todo.append(c2)
+                        stored_elsewhere = any(id(f2) in reach for f2 in storing)
                     disturbed = any(
                         (isinstance(n, ast.Attribute) and isinstance(n.ctx, (ast.Store, ast.Del)) and _text(n) == _text(a_))
                         or (isinstance(n, ast.Name) and n.id == v_ and isinstance(n.ctx, (ast.Store, ast.Del)))
-                        or (isinstance(n, ast.Call) and ((isinstance(n.func, ast.Attribute) and _text(n.func.value) == base_)
-                                                         or any(_text(x) == base_ for x in n.args)))
+                        or (stored_elsewhere and isinstance(n, ast.Call) and ((isinstance(n.func, ast.Attribute) and _text(n.func.value) == base_)
+                                                                              or any(_text(x) == base_ for x in n.args)))
                         or isinstance(n, (ast.FunctionDef, ast.Lambda))
                         for n in after)
                     if not disturbed:
@@ -1165,13 +1493,24 @@ def respell_new_constructs(tree, modname, reference, qualnames_fn):
                                 return node
                         for s_ in stmts[i + 2:]:
                             A_().visit(s_)
-                        if _is_pure(st.value):
+                        v_stores = sum(1 for n in ast.walk(fn) if isinstance(n, ast.Name) and n.id == v_ and isinstance(n.ctx, (ast.Store, ast.Del)))
+                        v_loads = sum(1 for n in ast.walk(fn) if isinstance(n, ast.Name) and n.id == v_ and isinstance(n.ctx, ast.Load) and n is not stmts[i + 1].value)
+                        if v_stores == 1 and v_loads == 0:
+                            stmts[i + 1].value = st.value
+                            new = []           # the variable is gone: its definition moves into the attribute store
+                        elif _is_pure(st.value):
                             stmts[i + 1].value = copy.deepcopy(st.value)
-                            v_stores = sum(1 for n in ast.walk(fn) if isinstance(n, ast.Name) and n.id == v_ and isinstance(n.ctx, (ast.Store, ast.Del)))
-                            v_loads = sum(1 for n in ast.walk(fn) if isinstance(n, ast.Name) and n.id == v_ and isinstance(n.ctx, ast.Load))
-                            if v_stores == 1 and v_loads == 0:
-                                new = []           # the variable is gone: drop its definition
                         count += 1
+                if new is None and isinstance(st, (ast.Assign, ast.Expr, ast.AugAssign)) and _setdefault_call(st) is not None and is_new("setdefault", st):
+                    # d.setdefault(k, {})...   ->   if k not in d: d[k] = {}   then   d[k]...
+                    c_ = _setdefault_call(st)
+                    item = ast.Subscript(value=copy.deepcopy(c_.func.value), slice=copy.deepcopy(c_.args[0]), ctx=ast.Load())
+                    item_st = copy.deepcopy(item)
+                    item_st.ctx = ast.Store()
+                    guard = ast.If(test=ast.Compare(left=copy.deepcopy(c_.args[0]), ops=[ast.NotIn()], comparators=[copy.deepcopy(c_.func.value)]),
+                                   body=[ast.Assign(targets=[item_st], value=c_.args[1])], orelse=[])
+                    _replace_node(st, c_, item)
+                    new = [guard, st]
                 if new is None and isinstance(st, ast.Assign):
                     tg = st.targets
                     if isinstance(st.value, ast.IfExp) and len(tg) == 1 and isinstance(tg[0], ast.Name) and tg[0].id not in known_locals and _is_pure(st.value) \
@@ -1193,6 +1532,17 @@ def respell_new_constructs(tree, modname, reference, qualnames_fn):
                             done_t.add(_text(te))
                         if ok:
                             new = [ast.Assign(targets=[te], value=ve) for te, ve in zip(tg[0].elts, st.value.elts)]
+                    elif len(tg) == 1 and isinstance(tg[0], (ast.Tuple, ast.List)) and len(tg[0].elts) > 1 and isinstance(st.value, ast.Call) and _is_pure(st.value) \
+                            and all(isinstance(e, ast.Name) for e in tg[0].elts) and is_new("unpackcall", st):
+                        # a, b = f(x)  (f pure)  ->  a = f(x)[0]; b = f(x)[1]; a new name that is never read is not assigned at all
+                        arg_names = {x.id for x in ast.walk(st.value) if isinstance(x, ast.Name)}
+                        if not ({e.id for e in tg[0].elts} & arg_names):
+                            new = []
+                            for k_, e in enumerate(tg[0].elts):
+                                read = any(isinstance(x, ast.Name) and x.id == e.id and isinstance(x.ctx, ast.Load) for x in ast.walk(fn))
+                                if not read and e.id not in known_locals:
+                                    continue
+                                new.append(ast.Assign(targets=[e], value=ast.Subscript(value=copy.deepcopy(st.value), slice=ast.Constant(value=k_), ctx=ast.Load())))
                     elif len(tg) == 2 and is_new("chained", st):
                         attr = [t for t in tg if isinstance(t, ast.Attribute) and _is_simple_arg(t)]
                         loc = [t for t in tg if isinstance(t, ast.Name) and t.id not in known_locals]
